@@ -132,8 +132,10 @@ BadProps(j, w, props, owner) ==
 Bad(j, w, t, pos) ==
     IF RT(j, w, t) THEN {}
     ELSE CASE t.kind = "cls" -> BadProps(j, w, PropsOf(t.cls), pos)
-           [] t.kind = "reference" /\ t.name \in SName -> BadProps(j, w, FlatM[t.name], t.name)
+           [] t.kind = "reference" /\ t.name \in SName ->
+                 IF j.k # "obj" \/ w.k # "obj" THEN {pos \o "|shape"} ELSE BadProps(j, w, FlatM[t.name], t.name)
            [] t.kind = "reference" /\ t.name \in AName /\ t.name # "LSPAny" -> Bad(j, w, ADef[t.name].type, pos)
+           [] t.kind = "reference" /\ t.name \in EName -> {pos \o "|enum"}
            [] t.kind = "array" ->
                  IF j.k # "arr" \/ w.k # "arr" \/ Len(j.a) # Len(w.a) THEN {pos \o "|shape"}
                  ELSE UNION {Bad(j.a[i], w.a[i], t.element, pos \o "[]") : i \in DOMAIN j.a}
@@ -170,7 +172,8 @@ BadWT(p, t, j, pos) ==
     IF WT(p, t, j) THEN {}
     ELSE CASE t.kind = "cls" -> BadWTProps(p, PropsOf(t.cls), j, TRUE, pos)
            [] t.kind = "reference" /\ t.name \in SName ->
-                 BadWTProps(p, FlatM[t.name], j, p.k = "inst" /\ p.cls = t.name, t.name)
+                 IF p.k # "inst" \/ p.cls # t.name \/ j.k # "obj" THEN {pos \o "|class"}
+                 ELSE BadWTProps(p, FlatM[t.name], j, TRUE, t.name)
            [] t.kind = "reference" /\ t.name \in AName /\ t.name # "LSPAny" -> BadWT(p, ADef[t.name].type, j, pos)
            [] t.kind = "reference" /\ t.name \in EName -> {pos \o "|enum"}
            [] t.kind = "array" ->
